@@ -1,3 +1,7 @@
+"""One-off helper of the round-6/7 session: rebuilds refactors/RESULTS.md from (a) the table evaluated against all 20
+checks at /verif a825b36, (b) the logs of the complete runs on the round-6/7 entries and (c) the stored rows of the
+incremental runs of tools/corpus_eval.py --changed-props (inputs under /tmp of that session; kept for the record of how the
+table was put together - a complete re-evaluation is `tools/corpus_eval.py` without options, about 1.5 h)."""
 import json, os, re
 HERE="/verif"
 old={}
